@@ -134,7 +134,7 @@ def check_format(ctx, kind, c, tokens, pts, epoch):
     has_date = "Y" in given and (("m" in given and "d" in given) or "j" in given)
     full = ("s" in given and len(given) == 1) or (has_date and all(k in given for k in "HMSz"))
     dumper = impl.D.TIMEPOINT_DUMPER_MAP[0]
-    for pdesc, p, cv in pts:
+    for pi, (pdesc, p, cv) in enumerate(pts):
         case = lambda: {"kind": "fmt", "mode": kind, "p": pdesc, "fmt": fmt}  # noqa: E731
         sig = {"rep": pdesc["rep"], "repeated": repeated, "full": full}
         want = posix(tokens, dict(cv, inst=cv["inst"] - epoch + EPOCH))
@@ -154,6 +154,16 @@ def check_format(ctx, kind, c, tokens, pts, epoch):
             ctx.violation("strftime_posix", dict(sig, directives="".join(sorted(set(bad)))), case, want,
                           {"TimePoint.strftime": got, "TimePointDumper.strftime": got2})
             continue
+        # a value that carries the strftime format as its dump format prints itself that way (str -> dumper.dump)
+        if pi % 3 == 0 and "%" in fmt:   # without a directive a dump format is ISO notation, not strftime
+            ctx.transitions += 1
+            try:
+                tw = impl.fresh_twin(p, dump_format=fmt)
+                got3 = None if tw is None else str(tw)
+            except Exception as ex:
+                got3 = "raised %s: %s" % (type(ex).__name__, ex)
+            if got3 is not None and got3 != want:
+                ctx.violation("strftime_posix", dict(sig, directives="", via="dump_format"), case, want, {"str": got3})
         # strptime with the same format (%s walks day by day from 1970: only within +-130 years of the epoch)
         if "s" in given and not 1840 <= cv["Y"] <= 2100:
             continue
